@@ -19,6 +19,7 @@ for c in $(git log --format=%h --grep='^fix:'); do
       *"jittered down to exactly zero"*) n=revert_zero_jittered_ttl;;
       *"waited for a key lock owner which did not build"*) n=revert_skipread_waiter;;
       *"rewritten after it was found expired"*) n=revert_syncmap_cleanup_cad;;
+      *"ExpireAll in an UnlimitedTTL cache"*) n=revert_expireall_unlimited;;
       *) n=revert_$c;;
     esac
   fi
